@@ -113,6 +113,7 @@ type Exec struct {
 	dry0 bool
 	curFr *Frame
 	curSt *State
+	fromReg bool
 	defMemo map[string]string
 	callOrdinal map[string]int
 	ghostVars map[string]Val // verdicts of the last crypto primitive calls (sig_ok, aead_ok)
@@ -352,6 +353,11 @@ func (ex *Exec) subRef(S types.Type, field string, ref string) string {
 	k := ex.declFun("refkind", []string{sInt}, sInt)
 	t := app(f, ref)
 	id := ex.typeTag("sub|" + typeKey(S) + "|" + field)
+	if ex.inQuant > 0 {
+		// the argument may mention a bound variable: state the axiom once for all arguments
+		ex.axiom("(forall ((x Int)) (! (and (= (" + p + " (" + f + " x)) x) (< (" + f + " x) 0) (= (" + k + " (" + f + " x)) " + fmt.Sprint(id) + ")) :pattern ((" + f + " x))))")
+		return t
+	}
 	ex.axiom(and(eq(app(p, t), ref), "(< "+t+" 0)", eq(app(k, t), fmt.Sprint(id))))
 	return t
 }
@@ -363,6 +369,10 @@ func (ex *Exec) elemRef(E types.Type, base, idx string) string {
 	k := ex.declFun("refkind", []string{sInt}, sInt)
 	t := app(f, base, idx)
 	id := ex.typeTag("elem|" + typeKey(E))
+	if ex.inQuant > 0 {
+		ex.axiom("(forall ((b Int) (i (_ BitVec 64))) (! (and (= (" + pb + " (" + f + " b i)) b) (= (" + pi + " (" + f + " b i)) i) (< (" + f + " b i) 0) (= (" + k + " (" + f + " b i)) " + fmt.Sprint(id) + ")) :pattern ((" + f + " b i))))")
+		return t
+	}
 	ex.axiom(and(eq(app(pb, t), base), eq(app(pi, t), idx), "(< "+t+" 0)", eq(app(k, t), fmt.Sprint(id))))
 	return t
 }
